@@ -36,6 +36,10 @@ HANDLERS = ['BodyNode', 'BlockNode', 'StatementListNode', 'ReturnNode', 'BreakNo
             'SelectRelatedWhereNode', 'SelectedAccessNode', 'ForEachNode', 'IfNode', 'ElIfListNode', 'ElIfNode',
             'ElseNode', 'WhileNode', 'AssignmentNode', 'BinaryOperationNode', 'UnaryOperationNode']
 
+# handlers added later (kept in a second list so that `handlerNames` stays what it was)
+HANDLERS2 = ['IntegerNode', 'RealNode', 'StringNode', 'BooleanNode', 'VariableAccessNode', 'FieldAccessNode',
+             'NavigationStepNode', 'NavigationListNode']
+
 EXC = {'ReturnException': '.returnExc', 'BreakException': '.breakExc', 'ContinueException': '.continueExc',
        'StopException': '.stopExc'}
 
@@ -122,8 +126,49 @@ class Handler(object):
             return '(.fieldNoTicks %s)' % _s(self.node_field(n.func.value))
         self.fail(n, 'expected node.<field>, node.<field>.replace("\'", \'\') or a string literal')
 
+    def kwcall(self, n):
+        """the calls with keyword arguments and the non-call right-hand sides of the literal / access handlers"""
+        # node.<f>  |  node.<f>[1:-1]  |  node.<f>.upper() == '<S>'
+        f = self.node_field(n)
+        if f is not None:
+            return '(.fieldVal %s)' % _s(f)
+        if isinstance(n, ast.Subscript) and self.node_field(n.value) is not None and isinstance(n.slice, ast.Slice):
+            sl = n.slice
+            if sl.step is None and ast.unparse(sl) == '1:-1':
+                return '(.stripFirstLast %s)' % _s(self.node_field(n.value))
+            self.fail(n, 'slice')
+        if isinstance(n, ast.Compare) and len(n.ops) == 1 and isinstance(n.ops[0], ast.Eq) and isinstance(n.left, ast.Call) \
+                and isinstance(n.left.func, ast.Attribute) and n.left.func.attr in ('upper', 'lower') and not n.left.args \
+                and not n.left.keywords and self.node_field(n.left.func.value) is not None \
+                and isinstance(n.comparators[0], ast.Constant) and isinstance(n.comparators[0].value, str):
+            return '(.%sEq %s %s)' % (n.left.func.attr, _s(self.node_field(n.left.func.value)), _s(n.comparators[0].value))
+        if not isinstance(n, ast.Call):
+            return None
+        fn = ast.unparse(n.func)
+        # property(fget=lambda: getattr(<h>, <name>), fset=lambda value: setattr(<h>, <name>, value))
+        if fn == 'property' and not n.args and [k.arg for k in n.keywords] == ['fget', 'fset']:
+            g, st = n.keywords[0].value, n.keywords[1].value
+            if isinstance(g, ast.Lambda) and not g.args.args and isinstance(g.body, ast.Call) and ast.unparse(g.body.func) == 'getattr' \
+                    and len(g.body.args) == 2 and isinstance(st, ast.Lambda) and [x.arg for x in st.args.args] == ['value'] \
+                    and isinstance(st.body, ast.Call) and ast.unparse(st.body.func) == 'setattr' and len(st.body.args) == 3 \
+                    and ast.unparse(st.body.args[2]) == 'value' and not g.body.keywords and not st.body.keywords:
+                return '(.propertyAttr %s %s %s %s)' % (_s(self.local(g.body.args[0])), self.name(g.body.args[1]),
+                                                       _s(self.local(st.body.args[0])), self.name(st.body.args[1]))
+            self.fail(n, 'property(fget=, fset=)')
+        # partial(self.symtab.find_symbol, <name>, default=<local>) / partial(self.symtab.install_symbol, <name>)
+        if fn == 'partial' and n.args and ast.unparse(n.args[0]) == 'self.symtab.find_symbol' and len(n.args) == 2 \
+                and [k.arg for k in n.keywords] == ['default'] and isinstance(n.keywords[0].value, ast.Name):
+            return '(.partialFind %s %s)' % (self.name(n.args[1]), _s(self.local(n.keywords[0].value)))
+        if fn == 'partial' and n.args and ast.unparse(n.args[0]) == 'self.symtab.install_symbol' and len(n.args) == 2 \
+                and not n.keywords:
+            return '(.partialInstall %s)' % self.name(n.args[1])
+        return None
+
     def call(self, n):
         """one call expression -> Call"""
+        kw = self.kwcall(n)
+        if kw is not None:
+            return kw
         if not isinstance(n, ast.Call) or n.keywords:
             self.fail(n, 'expected a call without keyword arguments')
         fn = ast.unparse(n.func)
@@ -180,6 +225,15 @@ class Handler(object):
         if fn == 'property' and len(a) == 1 and isinstance(a[0], ast.Lambda) and not a[0].args.args \
                 and isinstance(a[0].body, ast.Name):
             return '(.property %s)' % _s(self.local(a[0].body))
+        # int(node.<f>) / float(node.<f>)
+        if fn in ('int', 'float') and len(a) == 1 and self.node_field(a[0]) is not None:
+            return '(.%s %s)' % ('intOf' if fn == 'int' else 'floatOf', _s(self.node_field(a[0])))
+        # property(fget=lambda: getattr(<h>, <n>), fset=lambda value: setattr(<h>, <n>, value))
+        if fn == 'property' and not a:
+            self.fail(n)
+        # lambda-free two-argument property(<fget local>, <fset local>)
+        if fn == 'property' and len(a) == 2 and all(isinstance(x, ast.Name) for x in a):
+            return '(.property2 %s %s)' % (_s(self.local(a[0])), _s(self.local(a[1])))
         self.fail(n, 'call outside the translated fragment')
 
     # ----------------------------------------------------------------------- statements
@@ -203,6 +257,15 @@ class Handler(object):
                     and not e.args and not e.keywords:
                 return '.raise %s' % EXC[e.func.id]
             self.fail(st, 'raise of something that is not a control exception')
+        if isinstance(st, ast.Expr) and isinstance(st.value, ast.Yield) and st.value.value is not None:
+            return '.yield_ %s' % self.call(st.value.value)
+        if isinstance(st, ast.Return) and isinstance(st.value, ast.Lambda):
+            lam = st.value
+            b = lam.body
+            if [x.arg for x in lam.args.args] == ['chain'] and isinstance(b, ast.Call) and ast.unparse(b.func) == 'chain.nav' \
+                    and not b.keywords:
+                return '.ret (.navClosure %s)' % ('[' + ', '.join(self.name(x) for x in b.args) + ']')
+            self.fail(st, 'returned lambda')
         if isinstance(st, ast.Return):
             if isinstance(st.value, ast.Constant) and st.value.value is True:
                 return '.retTrue'
@@ -313,9 +376,15 @@ def _handler(tree, cls):
     name = 'accept_' + cls
     f = _method(tree, 'ActionWalker', name)
     a = f.args
-    if [x.arg for x in a.args] != ['self', 'node'] or a.vararg or a.kwarg or a.kwonlyargs or a.defaults or f.decorator_list:
+    params = [x.arg for x in a.args]
+    if params == ['self', 'node', 'default'] and [ast.unparse(d) for d in a.defaults] == ['None'] and not (
+            a.vararg or a.kwarg or a.kwonlyargs or f.decorator_list):
+        h = Handler(name)
+        h.locals.add('default')       # a keyword parameter, None unless an index access hands a list down
+    elif params != ['self', 'node'] or a.vararg or a.kwarg or a.kwonlyargs or a.defaults or f.decorator_list:
         raise Shape('%s: unexpected signature' % name)
-    h = Handler(name)
+    else:
+        h = Handler(name)
     items = h.stmts(_strip_doc(f.body))
     return name, _render_block(items, 2)
 
@@ -378,6 +447,34 @@ def _symtab(tree):
     return out
 
 
+# --------------------------------------------------------------------------- the wrapper accept / default_accept
+
+def _wstmts(body, where):
+    out = []
+    for st in body:
+        src = ast.unparse(st)
+        if isinstance(st, ast.Return) and src == 'return xtuml.Walker.accept(self, node, **kwargs)':
+            out.append('.returnDispatch')
+        elif isinstance(st, ast.Expr) and isinstance(st.value, ast.Call) and ast.unparse(st.value.func) == 'logger.error':
+            out.append('.logError')
+        elif isinstance(st, ast.Try) and not st.orelse and not st.finalbody and len(st.handlers) == 1 \
+                and st.handlers[0].type is not None:
+            h = st.handlers[0]
+            out.append('.tryExcept %s %s %s' % (_wstmts(st.body, where), _s(ast.unparse(h.type)), _wstmts(h.body, where)))
+        else:
+            raise Shape('%s: statement outside the expected shape: %s' % (where, src))
+    return '[' + ', '.join(out) + ']'
+
+
+def _wrapper(tree, meth):
+    f = _method(tree, 'ActionWalker', meth)
+    a = f.args
+    if [x.arg for x in a.args] != ['self', 'node'] or a.kwarg is None or a.kwarg.arg != 'kwargs' or a.vararg or a.defaults \
+            or f.decorator_list:
+        raise Shape('ActionWalker.%s: unexpected signature' % meth)
+    return _wstmts(_strip_doc(f.body), 'ActionWalker.' + meth)
+
+
 # --------------------------------------------------------------------------- emit
 
 HEADER = '''/-
@@ -424,6 +521,18 @@ inductive PyCall where
   | lowerField (f : String)                                -- node.<f>.lower()
   | applyOp (table key : String) (args : List String)      -- <table>[<key>](<args…>)
   | property (v : String)                                  -- property(lambda: <v>)
+  | fieldVal (f : String)                                  -- node.<f>
+  | stripFirstLast (f : String)                            -- node.<f>[1:-1]
+  | upperEq (f s : String)                                 -- node.<f>.upper() == '<s>'
+  | lowerEq (f s : String)                                 -- node.<f>.lower() == '<s>'
+  | intOf (f : String)                                     -- int(node.<f>)
+  | floatOf (f : String)                                   -- float(node.<f>)
+  | propertyAttr (gh : String) (gn : Name) (sh : String) (sn : Name)
+      -- property(fget=lambda: getattr(<gh>, <gn>), fset=lambda value: setattr(<sh>, <sn>, value))
+  | partialFind (n : Name) (dflt : String)                 -- partial(self.symtab.find_symbol, <n>, default=<dflt>)
+  | partialInstall (n : Name)                              -- partial(self.symtab.install_symbol, <n>)
+  | property2 (g s : String)                               -- property(<g>, <s>)
+  | navClosure (args : List Name)                          -- lambda chain: chain.nav(<args…>)
   deriving Repr
 
 inductive PyStmt where
@@ -443,6 +552,13 @@ inductive PyStmt where
   | forAccept (var child : String) (body : List PyStmt)      -- for <var> in self.accept(node.<child>): …
   | whileCall (c : PyCall) (body : List PyStmt)                -- while <c>: …
   | defClosure (name param : String) (body : List PyStmt)    -- def <name>(<param>): …
+  | yield_ (c : PyCall)                                    -- yield <c>
+
+/-- the statements of `ActionWalker.accept` / `ActionWalker.default_accept` (the wrapper every handler is reached through) -/
+inductive WStmt where
+  | returnDispatch                                         -- return xtuml.Walker.accept(self, node, **kwargs)
+  | logError                                               -- logger.error(…)
+  | tryExcept (body : List WStmt) (exc : String) (handler : List WStmt)   -- try: … except <exc> as e: …
 
 /-- which end of the Python list `scope_head` (blocks in the order they were entered) -/
 inductive End where
@@ -491,6 +607,17 @@ def generate(repo_dir):
     out.append('def symtab : SymtabShape :=\n  { ' + ',\n    '.join('%s := %s' % (k, st[k]) for k in
                ['scopeStartsWithOneBlock', 'enterBlockAt', 'leaveBlockAt', 'installSearch', 'installHit', 'installMissAt',
                 'findSearch', 'findMiss']) + ' }\n')
+    names2 = []
+    for cls in HANDLERS2:
+        name, body = _handler(tree, cls)
+        names2.append(name)
+        out.append('/-- `ActionWalker.%s` -/' % name)
+        out.append('def %s : List PyStmt :=\n  %s\n' % (name, body))
+    out.append('/-- the handlers translated in addition to `handlerNames` -/')
+    out.append('def handlerNames2 : List String :=\n  [' + ', '.join(_s(n) for n in names2) + ']\n')
+    for meth in ('accept', 'default_accept'):
+        out.append('/-- `ActionWalker.%s(self, node, **kwargs)` -/' % meth)
+        out.append('def ActionWalker_%s : List WStmt :=\n  %s\n' % (meth, _wrapper(tree, meth)))
     out.append('end Pyx.Gen.InterpShape\n')
     return [('InterpShape.lean', '\n'.join(out))]
 
